@@ -352,6 +352,22 @@ class World:
         self.sc = sc
         self.nodes = [build_node(s) for s in sc["nodes"]]
         self.kinds = [s["kind"] for s in sc["nodes"]]
+        # twins: two distinct live readouts that carry the SAME name (deep copies of one template are all called
+        # "<template>-(copy)"; the name registry is per class, so a Ridge and a Ridge subclass may share a name)
+        for i, spec in enumerate(sc["nodes"]):
+            tw = spec.get("twin")
+            if not tw:
+                continue
+            j = tw["of"]
+            if tw["how"] == "copy":
+                template = self.nodes[j]
+                self.nodes[j], self.nodes[i] = copy.deepcopy(template), copy.deepcopy(template)
+            else:
+                from reservoirpy.nodes import Ridge
+                TwinRidge = type("TwinRidge", (Ridge,), {})
+                self.nodes[i] = TwinRidge(output_dim=spec["dout"], ridge=float(Fraction(spec["lam"])), input_bias=bool(spec["bias"]),
+                                          name=self.nodes[j].name)
+            assert self.nodes[i] is not self.nodes[j] and self.nodes[i].name == self.nodes[j].name
         # models and the ESN are assembled at their first use, so that a freeze can come before or after the assembly
         self._models = [None] * len(sc["models"])
         self._esn = None
@@ -582,7 +598,7 @@ def correspondence(ctx):
     n = ctx.n(150, 1500)
     terms, keep, nt, dist = [], [], set(), {}
     for i in range(n):
-        sc = gen_freeze(rng, i // 5) if i % 5 == 4 else gen_scenario(rng, i)
+        sc = gen_freeze(rng, i // 5) if i % 5 == 4 else gen_twins(rng, i // 5) if i % 5 == 3 else gen_scenario(rng, i)
         try:
             _, obs = run_history(sc)
             term = to_coq(sc, obs)
@@ -606,7 +622,8 @@ def correspondence(ctx):
                     "reservoir and 1-2 readouts among Ridge / RLS / LMS / ScikitLearnNode(Ridge) / SumOffline (default buffers), used both "
                     "alone and inside reservoir >> readout(s) (array and name-keyed targets; models assembled at first use, so freezes come before or "
                     "after assembly; a malformed sequence k -- targets shorter / longer than inputs -- in half of the failing Ridge batches); one "
-                    "history in five is a freeze scenario (two readouts of one kind, one frozen); after every operation and for every node: which parameter hashes changed, "
+                    "history in five is a freeze scenario (two readouts of one kind, one frozen) and one in five a twins scenario (two same-named "
+                    "Ridge readouts with interleaved partial_fit sessions: the model's stores keep their buffers apart); after every operation and for every node: which parameter hashes changed, "
                     "len(_buffers), `_X is _Y`, len(_X), len(_Y), fitted, is_trainable, the exception class and Wout/bias are compared with "
                     "the model at Q; non-trivial = at least two completed training operations, or one completed and one failed; distinct by "
                     "scenario text",
@@ -832,8 +849,56 @@ def judge_freeze(sc):
     return None
 
 
+def gen_twins(rng, i):
+    """Two same-named Ridge readouts (copy twins / a Ridge and a subclass with an identical name) whose offline sessions
+    overlap: partial_fit calls on one while the session of the other is open, then fit() on both; sometimes a second round."""
+    d, dout = rng.randint(1, 3), rng.randint(1, 2)
+    rd = {"kind": "ridge", "din": d, "dout": dout, "bias": rng.random() < 0.6, "lam": rng.choice(LAMS), "alpha": Fraction(1)}
+    nodes = [{"kind": "res", "din": d, "dout": d, "xin": d, "lr": Fraction(1), "W": rows(rng, d, d, 2, 2), "Win": rows(rng, d, d, 2, 1),
+              "b": rows(rng, d, 1, 2, 2)}, dict(rd), dict(rd, twin={"of": 1, "how": ["copy", "subclass"][i % 2]})]
+    ops = []
+    for rnd in range(rng.choice([1, 1, 2])):
+        w = rng.choice([0, 0, 1])
+        turns = [1, 2] * rng.randint(1, 2) + [rng.choice([1, 2]) for _ in range(rng.randint(0, 2))]
+        if rng.random() < 0.5:
+            rng.shuffle(turns)
+        if turns[0] == turns[-1] and len(set(turns)) == 2:
+            turns.append(3 - turns[0])
+        for j in turns:
+            ops.append(dict(op="partial_fit", node=j, warmup=w, **gen_batch(rng, d, {j: dout}, w, rng.randint(1, 2))))
+        closing = [1, 2] if rng.random() < 0.5 else [2, 1]
+        for j in closing:
+            if rnd == 1 and rng.random() < 0.4:
+                ops.append(dict(op="fit", node=j, warmup=w, **gen_batch(rng, d, {j: dout}, w, rng.randint(1, 2))))
+            else:
+                ops.append({"op": "fit0", "node": j})
+    return {"d": d, "nodes": nodes, "models": [], "esn": False, "ops": ops, "twins": [1, 2], "mode": "twins:" + nodes[2]["twin"]["how"], "tag": i}
+
+
+def judge_twins(sc):
+    """Each twin must end up exactly like the same readout going through its OWN operations only (the other one idle)."""
+    w = World(sc)
+    for o in sc["ops"]:
+        if runnable(w, o):
+            w.apply(o)
+    for j in sc["twins"]:
+        alone = World(sc)
+        for o in sc["ops"]:
+            if o.get("node") == j and runnable(alone, o):
+                alone.apply(o)
+        got, ref = _learned_values("ridge", w.nodes[j]), _learned_values("ridge", alone.nodes[j])
+        if not _same(got, ref):
+            return _viol("twins:interleaved-sessions-mix-data",
+                         "two live readouts named %r (%s) trained batch-wise in one loop: node %d differs from the same readout trained "
+                         "alone on its own batches" % (w.nodes[j].name, sc["mode"], j), sc,
+                         None if ref is None else [x.tolist() for x in ref], None if got is None else [x.tolist() for x in got])
+    return None
+
+
 def judge(case):
     sc = case["scenario"]
+    if "twins" in sc:
+        return judge_twins(sc)
     if "second" in sc:
         return judge_session(sc)
     if "frozen" in sc:
@@ -863,6 +928,14 @@ def oracle(ctx, scale=1):
         v = judge_freeze(sc)
         if v:
             out.append(v)
+    n4 = ctx.n(24, 300) * scale
+    for i in range(n4):
+        sc = gen_twins(rng, i)
+        dist[sc["mode"]] = dist.get(sc["mode"], 0) + 1
+        v = judge_twins(sc)
+        if v:
+            out.append(v)
+    n3 += n4
     return {"evaluations": n1 + n2 + n3, "violations": out, "distribution": dist,
             "rule": "(i)/(ii) sha256 of every parameter and hyper of every node before/after each operation of a random history: fixed ones "
                     "never change, learned ones only on trainable targets of a training operation; (iii)-(v) two-fit sessions on Ridge, "
@@ -871,10 +944,12 @@ def oracle(ctx, scale=1):
                     "first fit's data (the failing sequence: too short for the warm-up, targets shorter / longer / wider than the inputs, "
                     "NaN); freeze scenarios: a readout (LMS, RLS, Ridge, SumOffline) frozen before / after model assembly / after a first "
                     "session, then Model.train / Model.fit with array and name-keyed targets naming it, and node-level calls: its parameters "
-                    "never change"}
+                    "never change; twins: two same-named live Ridge readouts (deep copies of one template / a Ridge and a subclass) with interleaved "
+                    "partial_fit sessions each equal the same readout trained alone on its own batches"}
 
 
 def replay(payload):
     sc = payload["scenario"]
-    v = judge_session(sc) if "second" in sc else judge_freeze(sc) if "frozen" in sc else judge_frame(sc)
+    v = judge_twins(sc) if "twins" in sc else judge_session(sc) if "second" in sc else judge_freeze(sc) if "frozen" in sc \
+        else judge_frame(sc)
     return {"violates": bool(v), "detail": v}
